@@ -181,23 +181,30 @@ def bar_loop(ctx):
     def pend(mk):
         return {k: (v.pending_amount0, v.pending_amount1, v.liquidity) for k, v in mk.positions.items()}
 
+    # the unrelated operation of bar 1 is issued in on_bar (before the bar's fee update) or in after_bar (after it: the write flag then
+    # survives into the next bar's first refresh)
+    phase1 = ctx.choose("op1_phase", 2) if op1 else 0
+
+    def do_op1(mk):
+        if op1 == 1:
+            mk.buy(swap_amt)
+        elif op1 == 2:
+            mk.add_liquidity_by_tick(lo_b, hi_b, b_base, b_quote)
+        elif op1 == 3:
+            mk.collect_fee(key_a)
+        elif op1 == 4:
+            mk.remove_liquidity(key_a, rm_liq, collect=False)
+        elif op1 == 5:
+            mk.add_liquidity_by_tick(lo_a, hi_a, more_base, more_quote)
+
     class Script(Strategy):
         def on_bar(self, snapshot):
             i = snapshot.row_id
             mk = self.broker.markets.default
             if i == 0:
                 mk.add_liquidity_by_tick(lo_a, hi_a, amt_base, amt_quote)
-            elif i == 1:
-                if op1 == 1:
-                    mk.buy(swap_amt)
-                elif op1 == 2:
-                    mk.add_liquidity_by_tick(lo_b, hi_b, b_base, b_quote)
-                elif op1 == 3:
-                    mk.collect_fee(key_a)
-                elif op1 == 4:
-                    mk.remove_liquidity(key_a, rm_liq, collect=False)
-                elif op1 == 5:
-                    mk.add_liquidity_by_tick(lo_a, hi_a, more_base, more_quote)
+            elif i == 1 and phase1 == 0:
+                do_op1(mk)
             elif i == 2 and op2 == 1:
                 mk.add_liquidity_by_tick(lo_a, hi_a, more_base, more_quote)
             rec["before"][i] = pend(mk)
@@ -206,6 +213,8 @@ def bar_loop(ctx):
             i = snapshot.row_id
             mk = self.broker.markets.default
             rec["after"][i] = pend(mk)
+            if i == 1 and phase1 == 1:
+                do_op1(mk)
 
     a.strategy = Script()
     try:
@@ -214,7 +223,7 @@ def bar_loop(ctx):
         ctx.outcome("raised:" + type(e).__name__)
         ctx.check(f"bar loop with an LP position raises no exception (got {type(e).__name__})", False, detail=str(e)[:200])
         return
-    ctx.outcome(f"ran:op1={op1},op2={op2}")
+    ctx.outcome(f"ran:op1={op1}@{'after_bar' if phase1 else 'on_bar'},op2={op2}")
     fee_rate = _todec(pool.fee_rate)
     d0, d1 = pool.token0.decimal, pool.token1.decimal
     for i in range(n):
@@ -242,7 +251,7 @@ def bar_loop(ctx):
             items.append(("share of active liquidity never exceeds own/(pool+own)", sand(f0 <= _todec(vol0[i]) / 10**d0 * fee_rate * w * single * (1 + RELQ) + RELQ * (_todec(b0) + 1), f1 <= _todec(vol1[i]) / 10**d1 * fee_rate * w * single * (1 + RELQ) + RELQ * (_todec(b1) + 1))))
             ctx.check_all(items)
     # liquidity added during a bar earns from that bar on: position A exists at the bar-0 update, B at the bar-1 update
-    ctx.check("liquidity added during a bar is present at that bar's fee update", key_a in rec["before"][0] and (op1 != 2 or key_b in rec["before"][1]))
+    ctx.check("liquidity added during a bar is present at that bar's fee update", key_a in rec["before"][0] and (op1 != 2 or key_b in rec["before"][1 + phase1]))
     ctx.check("CANARY no fee is ever earned", sand(*[rec["after"][i][k][0] == rec["before"][i][k][0] for i in range(n) for k in rec["before"][i]]))
 
 
